@@ -8,8 +8,11 @@ run_nts(ctx) is called from checks/c05.py:
   request); harness/c05nts concretises each abstract datagram from the real server's genuine
   authenticated response (nts absent / wrongUid / badTag / wrongKey / truncated; NTP-level
   deviations re-authenticated under the right key) and delivers it to the real NTS-enabled
-  IPClient through the recording proxy; NtpAcceptTrace judges every reaction
-  (monitor: got = "ok" => AcceptX(d, il, TRUE) -> VIOLATION; strict: reaction = NtpAccept's -> DRIFT).
+  IPClient through the recording proxy; the reaction to each datagram is decided without the
+  client's log (harness/c05nts lane.watch: return of the call, next request at the proxy, state of
+  the client's socket and goroutine, hooks VerifPrev / Fetcher.VerifData); NtpAcceptTrace judges it
+  (monitor: got = "ok" => AcceptX(d, il, TRUE) -> VIOLATION; strict: reaction = NtpAccept's, and
+  the log records with today's names - if any were seen - tell the same -> DRIFT).
 Returns (n_cases, n_records, reactions).
 """
 import random
@@ -106,7 +109,9 @@ def run_nts(ctx):
         if not ok:
             bad = recs[l - 1] if l else None
             nd = sum(1 for x in recs if x["want"] and x["got"] != "ignored" and x["want"] != x["got"])
-            ctx.drift.append("NTS client: %d reactions differ from NtpAccept.tla, e.g. %s" % (nd, bad))
+            nl = sum(1 for x in recs if x.get("lg") and x["lg"] != x["got"])
+            ctx.drift.append("NTS client (%s): %d reactions differ from NtpAccept.tla, %d from what the client's log records "
+                             "tell, e.g. %s" % (inv, nd, nl, bad))
     ctx.cov.setdefault("nts", {}).update(cases=len(cases), records=len(recs), reactions=reactions, per_kind=per_kind,
                                          accepted_violating=nviol, samples=recs[:2])
     return len(cases), len(recs), reactions
